@@ -37,6 +37,17 @@ ASSUMPTIONS = [
 BSHR = 0.826
 
 
+def regen():
+    """Props/C03.lean bridges the two estimators (Gen/Src/C03) and mcnorm of the constructor (Gen/Src/C01)"""
+    import srctie
+    out = srctie.regen("C03")
+    out.update(srctie.regen("C01"))
+    return out
+
+
+SRC_REDUCERS = [np.sum, np.sum, lambda x: np.var(x, ddof=1), np.count_nonzero]
+
+
 def fsum(x):
     return math.fsum(float(v) for v in np.asarray(x, dtype=np.float64).ravel())
 
@@ -186,6 +197,12 @@ def check_diffuse_call(ctx, geom, cfgid, stream, ins, full_mask, lines, pend):
     trig0, p0 = trig.copy(), p.copy()
     ce0 = np.array(coseff, dtype=np.float64, copy=True)
     got = geom.mcintegral(trig, coseff, p, thr, sn, ss)
+    # source tie: RegionGeom.mcintegral as translated from the source (reductions split) at Float next to the real call
+    import srctie
+    srctie.compare_split(ctx, "C03", "mcDiffuse",
+                         [trig, np.broadcast_to(np.asarray(coseff, dtype=np.float64), (k,)), p, np.float64(thr), np.float64(sn), np.float64(ss),
+                          w3[:, 0], w3[:, 1], w3[:, 2], np.ones(k, dtype=bool), np.float64(geom.mcnorm), np.float64(len(geom.betaTrSubN))],
+                         SRC_REDUCERS, [got[0], got[1], got[2], got[3]], rtol=1e-12)
     if not (np.array_equal(trig, trig0, equal_nan=True) and np.array_equal(p, p0)
             and np.array_equal(np.asarray(coseff, dtype=np.float64), ce0)):
         ctx.violation("RegionGeom.mcintegral", "mutates-input", "an input array was modified", {"cfg": cfgid})
@@ -248,6 +265,12 @@ def part_diffuse(ctx, nss, RegionGeom):
         ctx.case(("mcnorm", ci))
         if not relclose(h2f(o[0]), geom.mcnorm, 1e-11):
             ctx.disagree("C03.mcnorm", {"cfg": ci, "model": h2f(o[0]), "code": float(geom.mcnorm)})
+        # source tie: mcnorm of RegionGeom.__init__ as translated from the source (Gen/Src/C01.lean `init`, output 8)
+        import srctie
+        ip = cfg.detector.initial_position
+        srctie.compare(ctx, "C01", "init", [np.array([float(x)]) for x in (ip.altitude, cfg.simulation.angle_from_limb, cfg.simulation.max_cherenkov_angle,
+                                                                          cfg.simulation.max_azimuth_angle, geom.detLat, geom.detLong)],
+                       [None] * 8 + [np.array([float(geom.mcnorm)])] + [None] * 9, rtol=1e-9)
         for rep in range(reps):
             stream = ("structured", "boundary", "structured", "signed", "boundary", "counts")[rep % 6]
             n = int(rng.choice([1, 2, 3, 17, 64, 300])) if rep >= 2 else (300 if ctx.thorough else 120)
@@ -412,6 +435,14 @@ def part_target(ctx, nss, RegionGeomToO):
                 got = geom.mcintegral(trig, coseff_arg, p, thr, sn, ss, lenDec=ldec, method=method, store=store)
             cut_on = bool(cfg.detector.sun_moon.sun_moon_cuts)
             ce_arr = np.broadcast_to(np.asarray(coseff_arg, dtype=np.float64), (k,))
+            # source tie: RegionGeomToO.mcintegral as translated from the source, on the path its configuration switch selects; the
+            # per-event column the code hands to `store` is compared with the term under the second np.sum
+            import srctie
+            colname_ = "tmcintopt" if method == "Optical" else "tmcintrad"
+            srctie.compare_split(ctx, "C03", "mcTargetCut" if (cut_on and method == "Optical") else "mcTargetNoCut",
+                                 [trig, ce_arr, p, np.float64(thr), np.float64(sn), np.float64(ss), L, np.float64(n), dark, ldec],
+                                 SRC_REDUCERS, [got[0], got[1], got[2], got[3]],
+                                 real_terms=[None, stored.get(colname_), None, None] if k else None, rtol=1e-12)
             cols = np.column_stack([L, ldec, ce_arr, trig, p, dark.astype(np.float64)]) if k else np.zeros((0, 6))
             lines.append(drv_target(thr, sn, ss, float(n), cut_on, method, cols))
             colname = "tmcintopt" if method == "Optical" else "tmcintrad"
